@@ -1,7 +1,10 @@
 import ParryModel.Field
 import ParryModel.C09.Model
+import ParryModel.C09.Spec
 import ParryModel.C09.Theorems2
 import ParryModel.C09.Theorems3
+import ParryModel.C09.Theorems4
+import ParryModel.C09.Theorems5
 /-!
 # C09 property theorems: interval enclosures and box algebra, for every linearly ordered field.
 Statements only quantify over the model functions of `C09/Model.lean`, instantiated at the lawful
@@ -12,8 +15,6 @@ open Model
 
 variable {K : Type} [Field K] [LinearOrder K] [IsStrictOrderedRing K] (sq : K → K)
 
-/-- membership in an interval (the specification) -/
-def IMem (x : Interval K) (u : K) : Prop := x.lo ≤ u ∧ u ≤ x.hi
 
 theorem interval_contains_iff (x : Interval K) (u : K) :
     letI := fieldNum K sq
@@ -107,9 +108,6 @@ theorem interval_intersect_spec (x y : Interval K) :
 
 /-! ## boxes -/
 
-/-- point membership in a 3-D box (the specification) -/
-def BMem (b : Aabb3 K) (p : V3 K) : Prop :=
-  (b.mins.x ≤ p.x ∧ p.x ≤ b.maxs.x) ∧ (b.mins.y ≤ p.y ∧ p.y ≤ b.maxs.y) ∧ (b.mins.z ≤ p.z ∧ p.z ≤ b.maxs.z)
 
 theorem aabb_containsLocalPoint_iff (b : Aabb3 K) (p : V3 K) :
     letI := fieldNum K sq
@@ -263,5 +261,27 @@ theorem aabb_transformBy_contains (a : Aabb3 K) (m : Iso3 K) (p : V3 K)
   have bz := lin_bound r20 r21 r22 _ _ _ _ _ _ ex ey ez
   rw [abs_le] at bx by' bz
   refine ⟨⟨?_, ?_⟩, ⟨?_, ?_⟩, ?_, ?_⟩ <;> linarith [bx.1, bx.2, by'.1, by'.2, bz.1, bz.2]
+
+/-! ## composites under `scaled` (QBVH root box = `Aabb::scaled` of the root box) -/
+
+/-- **`TriMesh::scaled(s).local_aabb()`** (`Qbvh::scaled` replaces the root box by `root.scaled(s)`): for every scale
+vector, of any signs, the scaled root box contains `s∘p` for every point `p` of every triangle of the mesh — the
+box follows the mirrored vertices. -/
+theorem trimesh_scaled_aabb_contains (rmax : K) (vs : List (V3 K)) (idx : List (Nat × Nat × Nat)) (box : Aabb3 K) (s : V3 K) :
+    letI := fieldNum K sq
+    trimeshLocalAabb3 rmax vs idx = some box →
+    ∀ t ∈ idx, ∀ a b c, vs[t.1]? = some a → vs[t.2.1]? = some b → vs[t.2.2]? = some c →
+      ∀ p, (Triangle3.mk a b c).Mem p → BMem (box.scaled s) (p.cmul s) :=
+  fun h t ht a b c ha hb hc p hp =>
+    aabb_scaled_contains sq box s p (trimesh_local_aabb_contains sq rmax vs idx box h t ht a b c ha hb hc p hp)
+
+/-- **`Polyline::scaled(s).local_aabb()`** -/
+theorem polyline_scaled_aabb_contains (rmax : K) (vs : List (V3 K)) (idx : List (Nat × Nat)) (box : Aabb3 K) (s : V3 K) :
+    letI := fieldNum K sq
+    polylineLocalAabb3 rmax vs idx = some box →
+    ∀ t ∈ idx, ∀ a b, vs[t.1]? = some a → vs[t.2]? = some b →
+      ∀ p, (Segment3.mk a b).Mem p → BMem (box.scaled s) (p.cmul s) :=
+  fun h t ht a b ha hb p hp =>
+    aabb_scaled_contains sq box s p (polyline_local_aabb_contains sq rmax vs idx box h t ht a b ha hb p hp)
 
 end C09
